@@ -535,52 +535,47 @@ func (c *Ctx) lenOrdering() {
 	}
 	n := 0
 	for _, fn := range c.P.Funcs {
-		if fn.Pkg == nil || fn.Pkg.Pkg.Path() != pkgMessage || fn.Name() != "Len" || fn.Parent() != nil {
+		if fn.Pkg == nil || fn.Pkg.Pkg.Path() != pkgMessage || fn.Name() != "Len" || fn.Parent() != nil || recvNamed(fn) == "header" {
 			continue
 		}
-		var set, hl ssa.CallInstruction
-		for _, call := range ir.Calls(fn) {
-			if ir.IsMethod(call.Common(), pkgMessage, "header", "SetRemainingLength") {
-				set = call
-			} else if f := call.Common().StaticCallee(); f != nil && f.Pkg != nil && f.Pkg.Pkg.Path() == pkgMessage && f.Blocks != nil && len(c.calls(f, pkgMessage, "header", "SetRemainingLength")) > 0 {
-				set = call // the update of the remaining length moved into a helper
+		// Len with the helpers of the message written into place: on every path, the fixed-header length is taken
+		// after the remaining length was set
+		g := paths.New(c.P, fn, 2)
+		g.Expand = func(callee *ssa.Function, site ssa.CallInstruction) bool {
+			if callee.Blocks == nil || callee.Pkg == nil || callee.Pkg.Pkg.Path() != pkgMessage || callee.Signature.Recv() == nil {
+				return false
 			}
-			if ir.IsMethod(call.Common(), pkgMessage, "header", "msglen") {
-				hl = call
+			if ir.IsMethod(site.Common(), pkgMessage, "header", "SetRemainingLength") || ir.IsMethod(site.Common(), pkgMessage, "header", "msglen") {
+				return false
 			}
+			rn := recvNamed(callee)
+			return (rn == recvNamed(fn) || rn == "header") && callee.Name() != "msglen"
 		}
-		// both steps moved into one helper (header.lenWithBody(ml)): the order is decided there
-		if hl == nil {
-			for _, call := range ir.Calls(fn) {
-				h := call.Common().StaticCallee()
-				if h == nil || h.Blocks == nil || h.Pkg == nil || h.Pkg.Pkg.Path() != pkgMessage {
-					continue
-				}
-				var s2, h2 ssa.CallInstruction
-				for _, c2 := range ir.Calls(h) {
-					if ir.IsMethod(c2.Common(), pkgMessage, "header", "SetRemainingLength") {
-						s2 = c2
-					}
-					if ir.IsMethod(c2.Common(), pkgMessage, "header", "msglen") {
-						h2 = c2
-					}
-				}
-				if s2 != nil && h2 != nil {
-					set, hl = s2, h2
-				}
-			}
-		}
-		if hl != nil && set == nil && recvNamed(fn) != "header" && len(c.calls(fn, pkgMessage, recvNamed(fn), "msglen")) > 0 {
-			// a body of variable length is added to a header length that was computed for the old remaining length
-			n++
-			c.R.Bad("T3-dirty-discipline", fname(fn)+":header-length-after-remaining-length", c.P.InstrPos(hl), "Len() adds the body length to the fixed-header length without first setting the remaining length: the header length is that of the previous remaining length (0 for a new message) - once the body crosses a varint boundary (128, 16384, 2097152 bytes) Len() is too small and the packet is written short")
+		set := nodeM(mMethod(pkgMessage, "header", "SetRemainingLength"))
+		hl := nodeM(mMethod(pkgMessage, "header", "msglen"))
+		hls := nodesMatching(g, hl)
+		if len(hls) == 0 {
 			continue
 		}
-		if set == nil || hl == nil {
+		// a message without a variable body (nothing but the header) has nothing to set
+		hasBody := false
+		for _, nd := range g.All() {
+			if call := paths.CallAt(nd); call != nil {
+				if f := call.Common().StaticCallee(); f != nil && f.Name() == "msglen" && recvNamed(f) != "header" {
+					hasBody = true
+				}
+			}
+		}
+		if !hasBody {
 			continue
 		}
 		n++
-		c.R.Check(ir.Before(set, hl), "T3-dirty-discipline", fname(fn)+":header-length-after-remaining-length", c.P.InstrPos(hl), "SetRemainingLength precedes header.msglen()", "Len() computes the fixed-header length before the remaining length is updated: at a varint boundary (remaining length 128, 16384, 2097152) Len() is one byte short of what Encode needs and the packet cannot be written")
+		key := fname(fn) + ":header-length-after-remaining-length"
+		if pth := g.FindPath([]paths.Node{g.Entry()}, set, hl); pth != nil {
+			c.R.Bad("T3-dirty-discipline", key, c.P.InstrPos(pth[len(pth)-1].Instr), "Len() computes the fixed-header length before the remaining length is updated (or without updating it): the header length is that of the previous remaining length (0 for a new message) - at a varint boundary (body of 128, 16384, 2097152 bytes) Len() is one byte short of what Encode needs and the packet cannot be written", c.witness(g, pth)...)
+		} else {
+			c.R.Ok("T3-dirty-discipline", key, c.P.Pos(fn.Pos()), "SetRemainingLength precedes header.msglen() on every path")
+		}
 	}
 	c.R.Count("Len methods", n)
 	c.R.Floor("Len methods", n, 3)
@@ -1312,9 +1307,9 @@ func evalSmallIntFunc(fn *ssa.Function, k int64) (int64, bool) {
 }
 
 // packetIDWrittenWhole: every encoder writes the packet identifier as the two bytes its length function counts. The
-// identifier field is empty until it is set: a copy of the field whose count advances the cursor writes nothing for
-// an unset identifier. Accepted: a copy into a destination of exactly two bytes, or a copy that is unreachable while
-// the identifier is unset (the encoder assigns one first).
+// identifier field is empty until it is set: a copy of the field writes nothing for an unset identifier. Accepted: a
+// copy whose count is tested (the shortfall is handled) and does not advance the cursor, or a copy that is unreachable
+// while the identifier is unset (the encoder assigns one first).
 func (c *Ctx) packetIDWrittenWhole() {
 	sp := c.P.SPkgs["message"]
 	if sp == nil {
@@ -1336,14 +1331,28 @@ func (c *Ctx) packetIDWrittenWhole() {
 			}
 			n++
 			key := fmt.Sprintf("%s:packet-id-written-as-two-bytes", fname(fn))
-			// (a) destination of exactly two bytes
-			if d, ok := call.Common().Args[0].(*ssa.Slice); ok && d.Low != nil && d.High != nil {
-				if bo, ok := d.High.(*ssa.BinOp); ok && bo.Op == token.ADD && bo.X == d.Low {
-					if k, ok := bo.Y.(*ssa.Const); ok && k.Value != nil && k.Value.ExactString() == "2" {
-						c.R.Ok("T10-length-writer-agreement", key, c.P.InstrPos(call), "copied into a destination of exactly two bytes")
-						continue
+			// (a) the number of bytes copied is tested (a shortfall is handled, as in `if copy(..) != 2 { zero }`) and
+			// is not what advances the cursor
+			tested, advances := false, false
+			if cv, ok := call.(ssa.Value); ok && cv.Referrers() != nil {
+				for _, ref := range *cv.Referrers() {
+					switch x := ref.(type) {
+					case *ssa.BinOp:
+						switch x.Op {
+						case token.EQL, token.NEQ, token.LSS, token.GTR, token.LEQ, token.GEQ:
+							tested = true
+						default:
+							advances = true
+						}
+					case *ssa.DebugRef:
+					default:
+						advances = true
 					}
 				}
+			}
+			if tested && !advances {
+				c.R.Ok("T10-length-writer-agreement", key, c.P.InstrPos(call), "the count copied is tested and a short copy is handled; the cursor advances by a constant")
+				continue
 			}
 			// (b) unreachable with an unset identifier: judged in the function itself, or - for a helper that is handed
 			// a message whose identifier its caller has settled - in each caller with the helper inlined
